@@ -51,7 +51,7 @@ def observe (pcs : List PatternChar) (text : List Char) : String × String :=
   let ast := parseAtoms pcs
   match Pattern.fromAst ast (mkCfg true true false false) with
   | .error e =>
-    let spec := if astDefined ast && !hasSeq ast then "FAIL:defined-pattern-rejected" else "-"
+    let spec := if astDefined ast then "FAIL:defined-pattern-rejected" else "-"
     (s!"E={showErr e}", spec)
   | .ok p0 =>
     let pat (ab ae sh lp : Bool) : Pattern :=
